@@ -290,7 +290,16 @@ pub fn run_scenario(sc: &Value, top: &Path) -> Value {
         )
         .unwrap_or_default(),
     };
-    let behavior = WalkBehavior { depth, link };
+    // the behaviour through the public conversions where one applies (sc.wb): From<()>, From<DepthBehavior>,
+    // From<LinkBehavior> keep the defaults of the fields they do not name (no bounds, links read as files)
+    let follow = sc["follow"].as_bool().unwrap_or(false);
+    let behavior = match sc["wb"].as_str().unwrap_or("struct") {
+        "from_unit" if !follow && min <= 0 && max < 0 => WalkBehavior::from(()),
+        "from_depth" if !follow => WalkBehavior::from(depth),
+        "from_link" if min <= 0 && max < 0 => WalkBehavior::from(link),
+        "default" if !follow && min <= 0 && max < 0 => WalkBehavior::default(),
+        _ => WalkBehavior { depth, link },
+    };
     let layers: Vec<Value> = sc["layers"].as_array().cloned().unwrap_or_default();
     // assign scenario layers to slots of the fixed shape F N F N F N F
     let mut slots: Vec<Option<Value>> = vec![None; 7];
